@@ -128,7 +128,7 @@ def case(draw):
         opts["atol"] = atol
     if draw(st.booleans()) and mode == "replace":
         K = len(base["meta"]["copies"])
-        opts["p"] = draw(st.sampled_from([k / float(K) for k in range(1, K)] + [0.5, 0.34]))
+        opts["p"] = draw(st.sampled_from([k / float(K) for k in range(1, K)] + [0.5, 0.34, 0.0, 1.0]))
     if draw(st.booleans()) and mode == "replace":
         h, form = draw(gen_geom.hints(pat, force_form=draw(st.sampled_from(["ap1", "ap2", "pair", "triple", "triple"]))))
         opts["hints"] = h
